@@ -316,25 +316,10 @@ func runC13(c *Ctx) {
 	} else {
 		c.Unresolved("C13.G1", "(document.JWK).Validate")
 	}
-	// the validators see the keys / services through ParsePublicKeys / ParseServices: the parser hands on every object
-	// of the list — leaving its loop early ("not an array of objects") hides the remaining, unvalidated entries while
-	// the presence test on the raw list has already passed
-	for _, pn := range []string{"ParsePublicKeys", "ParseServices"} {
-		if pf := c.Fn("document", pn); pf != nil {
-			c.Analysed(pf)
-			// (the loop may sit in an unexported helper — a generic one shared by the two parsers)
-			var bad []string
-			nLoops := 0
-			for _, h := range append([]*ssa.Function{pf}, c.helpersOf(pf, 2)...) {
-				bad = append(bad, c.earlyLoopExits(h)...)
-				nLoops += len(naturalLoops(h))
-			}
-			c.Check("C13.G1", pn+":every-entry-handed-on", len(bad) == 0 && nLoops > 0, pf.Pos(), pn+": the loop over the list's entries is left only at its end", bad...)
-		} else {
-			c.Unresolved("C13.G1", "document."+pn)
-		}
-	}
-	c.Min("C13.G1", 62)
+	// the validators see the keys, services, ids and URIs through ParsePublicKeys / ParseServices / StringArray: every
+	// entry is handed on
+	c.listAccessorLoopsRule("C13.G1")
+	c.Min("C13.G1", 63)
 	c.Min("C13.K1", 1)
 	c.Assume("net/url.ParseRequestURI / url.Parse decide URI validity; the 'if' direction (every conforming patch is accepted) is not decided")
 }
